@@ -133,9 +133,26 @@ def parseWords (ws : List Nat) : Option Parsed :=
 def parsePayload (bytes : List Nat) : Option Parsed :=
   if bytes.length % 4 ≠ 0 then none else parseWords (fromLE32 bytes)
 
-/-- The C17 acceptance predicate on a parsed payload, for accelerator row `a`. -/
+/-- Hand-written expectation (Ethos-U driver documentation as quoted in DESIGN.md):
+    accelerator name ↦ (product, log2 MACs/cc, SHRAM KiB). -/
+def specTable : List (String × Nat × Nat × Nat) :=
+  [ ("ethos-u55-32", 0, 5, 16), ("ethos-u55-64", 0, 6, 16), ("ethos-u55-128", 0, 7, 24),
+    ("ethos-u55-256", 0, 8, 48), ("ethos-u65-256", 1, 8, 48), ("ethos-u65-512", 1, 9, 96) ]
+
+/-- the config word a driver expects: macs[3:0] | version[7:4]=0 | shram[15:8] | product[31:28] -/
+def specConfigWord (product log2macs shramKiB : Nat) : Nat :=
+  log2macs + shramKiB * 256 + product * 2 ^ 28
+
+def specConfigWordFor (name : String) : Option Nat :=
+  (specTable.find? (·.1 == name)).map fun (_, p, m, s) => specConfigWord p m s
+
+/-- architecture version 1.0.6 in bits [31:28].[27:20].[19:16] (hand-written) -/
+def specIdWord : Nat := 1 * 2 ^ 28 + 0 * 2 ^ 20 + 6 * 2 ^ 16
+
+/-- The C17 acceptance predicate on a parsed payload, for accelerator row `a`: judged against the
+    hand-written expectation, not against the model's own encoder. -/
 def payloadOk (a : AccRow) (p : Parsed) (words : List Nat) : Bool :=
-  p.configWord == buildConfigWord a && p.idWord == buildIdWord &&
+  some p.configWord == specConfigWordFor a.name && p.idWord == specIdWord && p.configTag == 0x00100001 &&
   p.cmdOffsetBytes % 16 == 0 && p.declared == p.cmds.length && p.cmds == words
 
 end VelaVerif.Payload
